@@ -1,7 +1,7 @@
 (* C08: the cached per-user table has one entry per user (needed to compare table sizes and the
    push recipient lists of two caches that agree pointwise). *)
 From Coq Require Import ZArith NArith List Bool Lia Permutation.
-From Tinode Require Import Base.Util Pure.Acs Sys.Topic Sys.TopicTac Sys.TopicFrame Sys.TopicCoh Sys.TopicCohProofs Sys.TopicCohStep.
+From Tinode Require Import Base.Util Pure.Acs Sys.Topic Sys.TopicTac Sys.TopicFrame Sys.TopicCohC08 Sys.TopicCohC08Proofs Sys.TopicCohC08Step.
 Import ListNotations.
 Open Scope Z_scope.
 
